@@ -174,7 +174,7 @@ def cond_conjuncts(c):
 
 
 # ---- format templates --------------------------------------------------------------------
-def decode_template(raw):
+def decode_template(raw, with_opts=False):
     """Decode rustc's format_args bytecode (rustc_ast_lowering/format.rs) into pieces:
     ("lit", str) | ("arg", position)."""
     out = []
@@ -205,10 +205,26 @@ def decode_template(raw):
             if opts & 8:
                 pos = b[i] | (b[i + 1] << 8)
                 i += 2
-            out.append(("arg", pos))
+            out.append(("arg", pos) if not with_opts else ("arg", pos, opts))
             nxt = pos + 1
         else:
             raise ValueError("unknown format bytecode %r" % c)
+    return out
+
+
+def format_specs(n):
+    """Option bits of every placeholder of every format template below n (bit 2 = width, bit 4 = precision)."""
+    out = []
+    for x in walk(n):
+        if x.get("k") == "call" and x.get("def", "").startswith("std::fmt::Arguments") and x["def"].endswith("::new") and x.get("args"):
+            lit = strip(x["args"][0])
+            raw = lit.get("raw")
+            if raw is None:
+                raw = list(lit.get("v", "").encode())
+            try:
+                out += [(p[2], x.get("ln")) for p in decode_template(raw, with_opts=True) if p[0] == "arg"]
+            except (ValueError, IndexError):
+                out.append((None, x.get("ln")))
     return out
 
 
